@@ -226,6 +226,7 @@ theorem io_refines_slice (r : Io) (n : Nat) :
 /-- generated obligation: the buffer and counter operations the model mirrors are present in
     read/ioread.rs, in the model's order -/
 theorem source_io_shape : sourceShape = true := by decide
+theorem source_stream_only_through_read_exact : streamOnlyThroughReadExact = true := by decide
 
 /-- non-vacuity: a reader with a byte looked at and a stream behind it -/
 example : (Io.readExact { buf := [1], src := [2, 3, 4], consumed := 5 } 3) =
